@@ -48,6 +48,7 @@ type simConn struct {
 	owner      int
 	sawError   bool // a Read/Write already returned an error to the client
 	deliveredCorr map[int32]bool // correlation ids of responses put into the client's read buffer
+	deliveredAt   map[int32]int64 // ... and when (fake us)
 	poisoned   bool // the server injected a garbage response on this connection
 	expectResp int // requests written that expect a response and are unanswered (C14)
 	noResp     map[int]bool
@@ -100,6 +101,7 @@ func (c *simConn) Read(p []byte) (int, error) {
 		d := time.Until(dl)
 		if d <= 0 {
 			c.markErr()
+			R.fired("read-timeout") // the client gives the connection up: a connection-level failure from its side
 			return 0, &net.OpError{Op: "read", Net: "tcp", Err: os.ErrDeadlineExceeded}
 		}
 		t := time.NewTimer(d)
@@ -259,6 +261,7 @@ func (d *dialer) Dial(network, a string) (net.Conn, error) {
 		time.Sleep(lat)
 		cl.k.logf("dial %s: no such host", a)
 		lastTransportErrUs = cl.k.nowUs()
+		cl.noteDialFail(a)
 		if cl.onDialFail != nil {
 			cl.onDialFail()
 		}
@@ -276,6 +279,7 @@ func (d *dialer) Dial(network, a string) (net.Conn, error) {
 		time.Sleep(to)
 		cl.k.logf("dial %s: timeout", a)
 		lastTransportErrUs = cl.k.nowUs()
+		cl.noteDialFail(a)
 		if cl.onDialFail != nil {
 			cl.onDialFail()
 		}
@@ -286,6 +290,7 @@ func (d *dialer) Dial(network, a string) (net.Conn, error) {
 		R.fired("refuse")
 		cl.k.logf("dial %s: refused", a)
 		lastTransportErrUs = cl.k.nowUs()
+		cl.noteDialFail(a)
 		if cl.onDialFail != nil {
 			cl.onDialFail()
 		}
